@@ -123,20 +123,22 @@ theorem apply_complete (s : Svc) (hs : declsWF (declsOf s)) (b : Body) (hb : bod
     simp only [Svc.names, List.contains_eq_mem, List.mem_map, decide_eq_true_eq]
     exact ⟨v, hv, rfl⟩
   simp only [notifyChanged_spec s hs b hb tick]
-  obtain ⟨h1, h2⟩ := varAfter_spec s.names b tick v hx
+  obtain ⟨h1, h2⟩ := varAfter_spec s.names (names_braceFree s hs) b hb tick v hx
   refine ⟨varAfter (assigns s.names b) tick v, _, List.mem_map_of_mem hv, h1, rfl, ?_⟩
-  rw [listedOf_contains _ (assigns_nodup s.names b hb) tick s.vars hnd v hv]
+  rw [listedOf_contains _ (assigns_nodup s.names (names_braceFree s hs) b hb) tick s.vars hnd v hv]
   exact h2
 
 /-- **Isolation**: the outcome for a variable does not depend on the other properties — two well-formed
     property sets that carry the same text (or nothing) for `v` leave `v` in the same state. -/
-theorem isolation (s : Svc) (b1 b2 : Body) (tick : Nat) (v : Var) (hv : v ∈ s.vars)
+theorem isolation (s : Svc) (hs : declsWF (declsOf s)) (b1 b2 : Body) (hb1 : bodyWF b1 = true) (hb2 : bodyWF b2 = true)
+    (tick : Nat) (v : Var) (hv : v ∈ s.vars)
     (hc : carried v.decl.name b1 = carried v.decl.name b2) :
     varAfter (assigns s.names b1) tick v = varAfter (assigns s.names b2) tick v := by
   have hx : s.names.contains v.decl.name = true := by
     simp only [Svc.names, List.contains_eq_mem, List.mem_map, decide_eq_true_eq]
     exact ⟨v, hv, rfl⟩
-  simp only [varAfter, ← carried_assigns s.names _ v.decl.name hx, hc]
+  simp only [varAfter, ← carried_assigns s.names (names_braceFree s hs) _ hb1 v.decl.name hx,
+    ← carried_assigns s.names (names_braceFree s hs) _ hb2 v.decl.name hx, hc]
 
 /-- **The callback runs exactly once** per applied event, whatever the property set contains. -/
 theorem callback_once (s : Svc) (b : Body) (tick : Nat) :
